@@ -78,3 +78,21 @@ Theorem C10_seq_main : forall s es rel,
 Proof. exact ok_C10_seq_model. Qed.
 Theorem C10_oracle_implies_seq : forall c, ok_C10 c = true -> ok_C10_seq c = true.
 Proof. exact ok_C10_implies_seq. Qed.
+
+(** C10_main: for every valid set-up and EVERY valid event list the COMPLETE
+    oracle ok_C10 accepts the model's own trace: besides the frame and sequence
+    conjuncts above, every call emits at most one event frame and the responses
+    carry exactly what the property asks for - the Follow_Up of a Sync timestamp
+    has the Sync's sequence id and preciseOriginTimestamp + correctionField equal
+    to the reported transmit time to 2^-16 ns (correction in [0, 2^16)); the
+    Delay_Resp echoes requester and sequence id, its receiveTimestamp is the
+    receive time to the nanosecond and its correction the request's plus the
+    sub-nanosecond part, saturating; Pdelay_Resp and Pdelay_Resp_Follow_Up echo
+    requester and sequence id with exact timestamps and the transmit timestamp of
+    the response is requested under the same identifiers; no other call emits a
+    response. *)
+From SV Require Import Port.MainC10b.
+Theorem C10_main : forall s es rel,
+  setup_valid s -> Forall event_valid es ->
+  exists i o, init s = Ok (i, o) /\ ok_C10 (mkCase s es rel (Some o) (run i es)) = true.
+Proof. exact ok_C10_model. Qed.
